@@ -12,7 +12,7 @@ from typing import (
     Union,
 )
 
-from numpy import empty_like, logical_not, ndarray
+from numpy import empty_like, ndarray, where
 
 from mygrad._utils import WeakRefIterable
 from mygrad.operation_base import Operation
@@ -285,7 +285,8 @@ class UnView(Operation):
             assert grad_view.shape == self.variables[1].shape
             # check that grad_view shares memory with grad
             assert grad_view.base is grad
-            grad_view *= 0
+            # (assigned, not multiplied: a non-finite incoming gradient must not leave nan behind)
+            grad_view[...] = 0
 
             return grad
 
@@ -338,6 +339,8 @@ class ApplyMask(Operation):
         if index == 0:
             return grad
         elif index == 1:
-            return grad * logical_not(self._mask)
+            # selected, not multiplied: where the update took effect the old contents get
+            # exactly zero, also if the incoming gradient is not finite there
+            return where(self._mask, grad.dtype.type(0), grad)
         else:  # pragma: no cover
             raise ValueError(f"UnView: backward_var index: {index}")
